@@ -295,6 +295,6 @@ def unconditional_jumps(body: List[ast.stmt]) -> List[ast.stmt]:
     return [s for s in body if isinstance(s, (ast.Break, ast.Continue, ast.Return))]
 
 
-def term_of(expr: ast.AST, scope: Optional[Scope] = None, env=None, call_hook=None) -> tuple:
-    e = scope.resolve(expr) if scope is not None else expr
+def term_of(expr: ast.AST, scope: Optional[Scope] = None, env=None, call_hook=None, keep=()) -> tuple:
+    e = scope.resolve(expr, keep=keep) if scope is not None else expr
     return tm.translate(e, env, call_hook)
